@@ -97,6 +97,11 @@ macro_rules! impl_current_for {
 
         impl$(<$($generic $( : $trait_tt1 $( + $trait_tt2)*)?),+>)? $struct_name$(<$($generic),+>)? {
             /// Init the current.
+            ///
+            /// Never inlined: a coroutine may be suspended on one thread and resumed on
+            /// another (work stealing), and a thread-local address computed before the
+            /// switch must not be reused after it.
+            #[inline(never)]
             pub(crate) fn init_current(current: &Self) {
                 $name.with(|s| unsafe {
                     s.as_ptr()
@@ -114,6 +119,7 @@ macro_rules! impl_current_for {
 
             /// Get the current if has.
             #[must_use]
+            #[inline(never)]
             #[allow(unreachable_pub)]
             pub fn current<'current>() -> Option<&'current Self> {
                 $name.try_with(|s| unsafe {
@@ -134,6 +140,7 @@ macro_rules! impl_current_for {
             }
 
             /// Clean the current.
+            #[inline(never)]
             pub(crate) fn clean_current() {
                 _ = $name.try_with(|s| unsafe {
                     _ = s.as_ptr()
